@@ -1,6 +1,6 @@
 (* C15 -- property theorems only.  Proofs live in C15/Proofs*.v. *)
 From Coq Require Import NArith List.
-From DV Require Import Base.Outcome C15.Gen C15.Model C15.Proofs C15.ProofsSeq C15.ProofsNet C15.ProofsDemux C15.ProofsXfr C15.ProofsConn.
+From DV Require Import Base.Outcome C15.Gen C15.Model C15.Proofs C15.ProofsSeq C15.ProofsNet C15.ProofsDemux C15.ProofsXfr C15.ProofsConn C15.ProofsWide.
 Import ListNotations.
 Local Open Scope N_scope.
 
@@ -344,3 +344,28 @@ Print Assumptions C15_config_setter_covers_run.
 Theorem C15_stream_frame_length_fits : stream_max_message_len < 65536 /\ stream_max_message_len = 65535.
 Proof. exact stream_frame_length_fits. Qed.
 Print Assumptions C15_stream_frame_length_fits.
+
+(* ---- widening round: run-level redundant / load-balancer statements ---- *)
+Theorem C15_red_result_from_upstream : forall defer_err n (evs : list revent) fin,
+  r_run defer_err n r_init evs = Ok (inr fin) -> r_from_upstream evs fin.
+Proof. exact red_result_from_upstream. Qed.
+Print Assumptions C15_red_result_from_upstream.
+
+Theorem C15_red_waiting_has_outstanding : forall defer_err n (evs : list revent) s',
+  r_run defer_err n r_init evs = Ok (inl s') -> r_out s' <> [].
+Proof. exact red_waiting_outstanding_init. Qed.
+Print Assumptions C15_red_waiting_has_outstanding.
+
+Theorem C15_lb_step_spec : forall ups pick ups' o, lb_step ups pick = (ups', o) ->
+  match o with
+  | Some i => (i < length ups)%nat /\ lb_usable (lb_at ups i) = true /\ ups' = lb_bump ups i
+  | None => ups' = ups /\ forall i, (i < length ups)%nat -> lb_usable (lb_at ups i) = false
+  end.
+Proof. exact lb_step_spec. Qed.
+Print Assumptions C15_lb_step_spec.
+
+Theorem C15_lb_burst_bounded : forall (picks : list nat) ups i mb b,
+  nth_error ups i = Some (Some mb, b) -> b <= mb + 1 ->
+  lb_given i (lb_run ups picks) + b <= mb + 1.
+Proof. exact lb_burst_bounded. Qed.
+Print Assumptions C15_lb_burst_bounded.
